@@ -147,10 +147,14 @@ impl HotTier {
             inserted_at: Instant::now(),
         };
 
-        self.documents.write().insert(doc_id, doc);
+        // Lock order is documents -> stats everywhere in this file (delete, batch_delete,
+        // drain_for_flush, get_with_coherence). Taking stats first and then documents here
+        // deadlocks against any of those running concurrently.
+        let mut docs = self.documents.write();
+        docs.insert(doc_id, doc);
 
         let mut stats = self.stats.write();
-        stats.current_size = self.documents.read().len();
+        stats.current_size = docs.len();
         stats.total_inserts += 1;
     }
 
